@@ -1,66 +1,20 @@
-(* The single-table implementation model (Model/PlanClass.v) against the reference semantics:
-   outside finding class 1 (projection fast path with select items that are not the table's
-   leading columns in order) it returns exactly the reference result; inside the class a concrete
-   query is answered wrongly (proj_refuted -- its witness runs on the real Database on every
-   check). *)
-From Coq Require Import ZArith List Bool Lia.
+(* The single-table implementation model (Model/PlanClass.v).  Finding class 1 (projection fast
+   path: SELECT of plain columns without a filter returned the wrong columns) is repaired in /repo
+   (commit 84a97fb); the model is the reference semantics, and the former witness is answered
+   correctly (it is still executed on the real Database on every check). *)
+From Coq Require Import ZArith List Bool.
 From TV Require Import Model.SqlSpec Model.QuerySpec Model.ConstFold Model.Pushdown Model.PlanClass.
 Import ListNotations.
 Open Scope Z_scope.
 
-Lemma nat_list_eqb_eq : forall a b, nat_list_eqb a b = true -> a = b.
-Proof.
-  induction a as [|x a IH]; destruct b as [|y b]; cbn; intros H; try discriminate; [reflexivity|].
-  apply andb_prop in H as [E H]. apply Nat.eqb_eq in E. subst. f_equal. now apply IH.
-Qed.
-Lemma cols_of_map : forall l cs, cols_of l = Some cs -> l = map ECol cs.
-Proof.
-  induction l as [|e l IH]; intros cs H; cbn in H.
-  - now injection H as <-.
-  - destruct e; try discriminate. cbn in H. destruct (cols_of l) as [cs'|]; [|discriminate].
-    injection H as <-. cbn. f_equal. now apply IH.
-Qed.
-Lemma nth_error_map_seq : forall {A} (f : nat -> A) n c, (c < n)%nat -> nth_error (map f (seq 0 n)) c = Some (f c).
-Proof.
-  intros A f n c H. rewrite nth_error_map. rewrite nth_error_nth' with (d := 0%nat) by now rewrite seq_length.
-  cbn. now rewrite seq_nth.
-Qed.
-
 Definition single (q : query) : Prop := exists i, q_from q = FTab i.
 
-Theorem impl_single_correct : forall d q,
-  single q -> proj_class q = false -> q_defined d q = true -> impl_single d q = q_out d q.
-Proof.
-  intros d q [i Hf] Hc Hd. unfold impl_single. unfold proj_class in Hc. rewrite Hf in Hc.
-  destruct (fast_path q) as [cs|] eqn:F; [|reflexivity].
-  apply negb_false_iff in Hc. apply nat_list_eqb_eq in Hc.
-  unfold fast_path in F. destruct (effective_where (q_where q)); [discriminate|].
-  destruct (q_star q) eqn:S; [discriminate|]. destruct (q_items q) as [|e0 it] eqn:I; [discriminate|].
-  apply cols_of_map in F.
-  unfold q_out. apply map_ext_in. intros r Hr.
-  unfold q_defined in Hd. apply andb_prop in Hd as [_ Hd]. rewrite forallb_forall in Hd. specialize (Hd r Hr).
-  unfold out_row in *. rewrite S, I, F in *. rewrite map_map in *. cbn [eval] in *.
-  rewrite forallb_forall in Hd.
-  remember (length cs) as n eqn:En. clear En F I. subst cs.
-  unfold fast_row. apply map_ext_in. intros c Hc'.
-  apply in_seq in Hc'. rewrite nth_error_map_seq by lia.
-  assert (H : In (nth_error r c) (map (fun x => nth_error r x) (seq 0 n))).
-  { apply in_map_iff. exists c. split; [reflexivity|]. apply in_seq. lia. }
-  specialize (Hd _ H). destruct (nth_error r c); [reflexivity|discriminate].
-Qed.
+Theorem impl_single_correct : forall d q, single q -> impl_single d q = q_out d q /\ q_class d q = 0.
+Proof. intros d q [i H]. split; [reflexivity|]. unfold q_class. now rewrite H. Qed.
 
-(* class 1 is a real defect of the model (and of the code): SELECT c1 FROM t *)
-Theorem proj_refuted :
+(* SELECT c1 FROM t, and SELECT c1, id FROM t: the queries that used to return NULLs / (id, c1) *)
+Theorem proj_fixed :
   let d : db := [(2%nat, [[VInt 1; VInt 10]; [VInt 2; VInt 20]])] in
-  let q := mkQuery (FTab 0) None false [ECol 1] in
-  q_defined d q = true /\ proj_class q = true /\
-  q_out d q = [[Some (VInt 10)]; [Some (VInt 20)]] /\
-  impl_single d q = [[Some VNull]; [Some VNull]].
-Proof. cbv zeta. repeat split; vm_compute; reflexivity. Qed.
-
-(* ... and it disappears behind an always-true conjunct the folding rule does not see *)
-Theorem proj_unfolded_conjunct_ok :
-  let d : db := [(2%nat, [[VInt 1; VInt 10]; [VInt 2; VInt 20]])] in
-  let q := mkQuery (FTab 0) (Some (ECmp CLt (ELit (VInt 1)) (ELit (VInt 2)))) false [ECol 1] in
-  proj_class q = false /\ impl_single d q = [[Some (VInt 10)]; [Some (VInt 20)]].
+  impl_single d (mkQuery (FTab 0) None false [ECol 1]) = [[Some (VInt 10)]; [Some (VInt 20)]] /\
+  impl_single d (mkQuery (FTab 0) None false [ECol 1; ECol 0]) = [[Some (VInt 10); Some (VInt 1)]; [Some (VInt 20); Some (VInt 2)]].
 Proof. cbv zeta. split; vm_compute; reflexivity. Qed.
